@@ -12,7 +12,15 @@ C17: every shipped platform resolves and pilots are sized to fit.
 3. TLC prints every size it explored; the rig applies each to the real
    `PMGRLaunchingComponent._prepare_pilot` of each platform, and calls the real
    factories for every resolved pair;
-4. the SizingTrace monitor validates all recorded events (code -> spec).
+4. every agent config `_prepare_pilot` wrote (platform's own SMT) is handed to
+   the platform's real resource manager in a faked allocation: the agent must
+   work with the figures the job requests (C17.AgentRMAgrees);
+5. the SizingBulk design model of `work()` is model checked; TLC chooses bulks
+   of 2-3 pilots over mixed platforms / schemas in every order and the bucket
+   whose submission fails; each is run through the real work() ->
+   _start_pilot_bulk -> _prepare_pilot (C17.SchemaOfPilot, C17.LaunchFailureLocal
+   and the sizing clauses);
+6. the SizingTrace monitor validates all recorded events (code -> spec).
 '''
 
 from .. import tlc, tracecheck
@@ -24,7 +32,7 @@ DEVS = ['DevFloorNodes', 'DevBlockedIgnored', 'DevBackupNotInJob', 'DevAgentTold
 INVARIANTS = ['TypeOK', 'InvVerdict', 'InvMinimal', 'InvCovers', 'InvNodesGiven', 'InvJobSized',
               'InvAgentAgrees']
 
-QUICK    = dict(nodes=[1, 2, 5], backup=[0, 1, 2], k=[0, 1, 2], gk=[0, 1, 2], smt=[0, 1, 2])
+QUICK    = dict(nodes=[1, 2, 5], backup=[0, 1, 2], k=[0, 1, 2], gk=[0, 1, 2], smt=[0, 2])
 THOROUGH = dict(nodes=[1, 2, 5, 17, 128], backup=[0, 1, 2], k=[0, 1, 2, 3, 5, 16], gk=[0, 1, 2, 5],
                 smt=[0, 1, 2, 4])
 
@@ -80,6 +88,31 @@ def mc_files(pairs, dom, plats, scope, devs=(), print_cases=False, invariants=No
     return {'MC.tla': mod, 'MC.cfg': cfg}
 
 
+BULK_INV  = ['TypeOK', 'InvSchemaOfPilot', 'InvAllPrepared', 'InvLaunchFailureLocal', 'InvOthersPending']
+BULK_DEVS = ['DevStaleSchema', 'DevFailAll']
+# preferred members of the mixed group (kept if the shipped configs still have them)
+MIXED = [('local.localhost', ''), ('ncar.cheyenne', 'ssh'), ('ncar.cheyenne', 'local'),
+         ('ncsa.delta', 'batch'), ('nioz.laplace', 'interactive'), ('tacc.frontera', '')]
+
+
+def bulk_files(groups, schemas_of, sizes, devs=(), print_cases=False, invariants=None):
+    plats = sorted(schemas_of)
+    mod  = '---- MODULE MCB ----\nEXTENDS SizingBulk\n'
+    mod += 'MCGroups == {%s}\n' % ', '.join(
+        '{' + ', '.join('<<%s, %s>>' % (q(p), q(sc)) for p, sc in g) + '}' for g in groups)
+    mod += 'MCSchemasOf == [p \\in %s |-> CASE %s]\n' % (
+        tset(plats), ' [] '.join('p = %s -> %s' % (q(p), tset(schemas_of[p])) for p in plats))
+    mod += 'MCSizes == %s\n====\n' % tset(sizes, False)
+    cfg  = ('CONSTANTS\n Groups <- MCGroups\n SchemasOf <- MCSchemasOf\n BulkSizes <- MCSizes\n'
+            ' PrintCases = %s\n' % tbool(print_cases))
+    for d in BULK_DEVS:
+        cfg += ' %s = %s\n' % (d, tbool(d in devs))
+    cfg += 'SPECIFICATION Spec\nCHECK_DEADLOCK FALSE\n'
+    for i in (BULK_INV if invariants is None else invariants):
+        cfg += 'INVARIANT %s\n' % i
+    return {'MCB.tla': mod, 'MCB.cfg': cfg}
+
+
 def dom_constants(dom):
     return ('DomRM = %s\n DomLM = %s\n DomSched = %s\n DomExec = %s\n DomAgent = %s\n'
             % tuple(tset(dom[k]) for k in ('rm', 'lm', 'sched', 'exec', 'agent')))
@@ -104,7 +137,7 @@ def report(chk, traces, res, note):
     other = {}
     for (kind, key, tr), errs in zip(traces, res):
         for clause, idx in errs:
-            ev = tr['events'][idx - 1]
+            ev = tr['events'][idx - 1] if idx <= len(tr['events']) else {}
             if clause.split('.')[0] != chk.pid:
                 other[clause] = other.get(clause, 0) + 1
                 continue
@@ -114,12 +147,26 @@ def report(chk, traces, res, note):
                               % (tr['name'], tr['schema'], clause, ev.get('err', '')),
                               {'rig': 'sizing', 'kind': 'resolve', 'name': tr['name'],
                                'schema': tr['schema'], 'errs': errs})
+            elif kind == 'bulk':
+                spec = [(p['plat'], p['schema']) for p in tr['pilots']]
+                mixed = len(set(sc for _, sc in spec)) > 1
+                chk.violation(clause, 'bulk of pilots naming %s' % ('different access schemas' if mixed
+                                                                   else 'one access schema'),
+                              'real work() on bulk %s (failing bucket %d) violates %s'
+                              % (spec, tr['fail'], clause),
+                              {'rig': 'sizing', 'kind': 'bulk', 'spec': spec, 'fail': tr['fail'],
+                               'errs': errs, 'events': [{k: v for k, v in e.items()
+                                                         if k not in ('plat', 'jd', 'agent', 'size')}
+                                                        for e in tr['events']]})
             else:
-                chk.violation(clause, size_class(tr['plat'], ev['size']),
-                              'real _prepare_pilot for %s size %s violates %s (%s)'
-                              % (tr['plat']['name'], ev['size'], clause, ev.get('err', '')),
+                chk.violation(clause, size_class(tr['plat'], ev.get('size') or tr['events'][idx - 2]['size']),
+                              'real _prepare_pilot%s for %s size %s violates %s (%s)'
+                              % (' -> agent resource manager' if ev.get('ev') == 'AgentRM' else '',
+                                 tr['plat']['name'], ev.get('size') or tr['events'][idx - 2]['size'],
+                                 clause, ev.get('err', '')),
                               {'rig': 'sizing', 'kind': 'size', 'name': tr['plat']['name'],
-                               'size': ev['size'], 'event': ev, 'errs': errs})
+                               'size': ev.get('size') or tr['events'][idx - 2]['size'], 'event': ev,
+                               'errs': errs})
     for c, n in sorted(other.items()):
         chk.notes.append('%s: %s in %d events (code and model differ without breaking a C17 clause)'
                          % (note, c, n))
@@ -135,7 +182,8 @@ def resolve_all(rig):
             events.append(rig.factories(ev, rcfg))
             rcfgs.setdefault(name, rcfg)
         pairs.append((name, schema, ev))
-        traces.append(('resolve', (name, schema), {'name': name, 'schema': schema, 'events': events}))
+        traces.append(('resolve', (name, schema), {'kind': 'resolve', 'name': name, 'schema': schema,
+                                                   'events': events}))
     return pairs, traces, rcfgs
 
 
@@ -211,10 +259,51 @@ def run(chk, tier, seed):
 
         # ---- real _prepare_pilot for every platform x size ------------------------
         for p in known:
-            events = [rig.prepare(p['name'], rcfgs[p['name']], s) for s in sizes[p['name']]]
-            traces.append(('size', p['name'], {'plat': p, 'events': events}))
+            events = []
+            for s in sizes[p['name']]:
+                events += rig.prepare(p['name'], rcfgs[p['name']], s, with_rm=(s['smt'] == 0))
+            traces.append(('size', p['name'], {'kind': 'size', 'plat': p, 'events': events}))
             for s in sizes[p['name']]:
                 chk.nontrivial.add((size_class(p, s), s['cores'] % max(p['cpn'], 1) == 0, s['gpus'] > 0))
+
+        # ---- work(): bulks of pilots over mixed platforms / schemas ----------------------
+        okp = [(n, sc) for n, sc, e in pairs if e['ok']]
+        schemas_of = {}
+        for n, sc, e in pairs:
+            if e['ok']:
+                schemas_of[n] = e['schemas']
+        mixed = [c for c in MIXED if c in okp]
+        if len(mixed) < 4:
+            mixed = (mixed + [c for c in okp if c[1]])[:4]
+        groups = [mixed[:4] if quick else mixed]
+        if not quick:     # each platform with several schemas: all of them (and none) in one bulk
+            for n in sorted(schemas_of):
+                if len(schemas_of[n]) > 1:
+                    groups.append([(n, '')] + [(n, sc) for sc in schemas_of[n]][:3])
+        sub = {n: schemas_of[n] for g in groups for n, _ in g}
+        r3 = tlc.run('Sizing', 'MCB', 'MCB.cfg', workers=w, timeout=900,
+                     extra_files=bulk_files(groups, sub, [2, 3], print_cases=True))
+        chk.add_tlc(r3, 'exhaustive:bulk')
+        if not r3.ok:
+            raise Machinery('design model SizingBulk violates %s with all deviations off:\n%s'
+                            % (r3.violated, r3.trace[:3000]))
+        bulks = sorted(set((tuple(tuple(c) for c in v[1]), v[2])
+                           for v in (tlc.parse_value(t) for t in tlc.extract_tuples(r3.out, 'BULK'))))
+        if not bulks:
+            raise Machinery('SizingBulk printed no bulks')
+        if not quick:
+            for dev, inv in [('DevStaleSchema', 'InvSchemaOfPilot'), ('DevFailAll', 'InvLaunchFailureLocal')]:
+                r4 = tlc.run('Sizing', 'MCB', 'MCB.cfg', workers=w, timeout=600,
+                             extra_files=bulk_files(groups[:1], sub, [2, 3], devs=[dev], invariants=[inv]))
+                chk.add_tlc(r4, 'deviation:' + dev)
+                if r4.ok or r4.violated != inv:
+                    raise Machinery('deviation %s not detected by the model (got %s)' % (dev, r4.violated))
+                chk.notes.append('deviation %s breaks %s in the design model' % (dev, inv))
+        for spec, fail in bulks:
+            traces.append(('bulk', (spec, fail), rig.bulk([tuple(c) for c in spec], fail)))
+            chk.nontrivial.add(('bulk', len(set(spec)), len(set(sc for _, sc in spec)), fail > 0,
+                                spec[-1][1] == spec[0][1]))
+        chk.notes.append('%d bulks of 2-3 pilots through the real work()' % len(bulks))
         chk.evaluations += sum(len(t[2]['events']) for t in traces)
     finally:
         rig.close()
@@ -242,7 +331,12 @@ def run(chk, tier, seed):
         'constructors are stubbed when the factories are called for the resolved names',
         'sandboxes of _prepare_pilot are fixed URLs; the agent config is read back from the file '
         '_prepare_pilot writes (mkstemp redirected to a scratch directory)',
-        'pilot sizes pass PilotDescription.verify(): nodes or cores(+gpus), backup nodes only with nodes']
+        'pilot sizes pass PilotDescription.verify(): nodes or cores(+gpus), backup nodes only with nodes',
+        'agent resource manager loop: faked allocation of exactly the requested nodes (Slurm node list, LSF '
+        'host file with a batch node, PBSPro vnodes / node file, Fork virtual nodes), platform SMT only '
+        '(no $RADICAL_SMT override); a Fork platform without fake_resources is looked at for one node only',
+        'work(): staging, tar and ln call-outs and the job submission are recorders; the submission of '
+        'one TLC-chosen bucket raises; expected endpoints are read from the shipped schema the pilot names']
 
 
 def replay(chk, obj):
@@ -253,7 +347,10 @@ def replay(chk, obj):
         if obj['kind'] == 'resolve':
             ev, rcfg = rig.resolve(obj['name'], obj['schema'])
             events = [ev] + ([rig.factories(ev, rcfg)] if rcfg is not None else [])
-            traces = [('resolve', None, {'name': obj['name'], 'schema': obj['schema'], 'events': events})]
+            traces = [('resolve', None, {'kind': 'resolve', 'name': obj['name'], 'schema': obj['schema'],
+                                         'events': events})]
+        elif obj['kind'] == 'bulk':
+            traces = [('bulk', None, rig.bulk([tuple(c) for c in obj['spec']], obj['fail']))]
         else:
             rcfg = None
             for n, sch in rig.pairs():
@@ -262,7 +359,9 @@ def replay(chk, obj):
             if rcfg is None:
                 raise Machinery('platform %s does not resolve' % obj['name'])
             p = R.SizingRig.platform(obj['name'], rcfg)
-            traces = [('size', None, {'plat': p, 'events': [rig.prepare(obj['name'], rcfg, obj['size'])]})]
+            traces = [('size', None, {'kind': 'size', 'plat': p,
+                                      'events': rig.prepare(obj['name'], rcfg, obj['size'],
+                                                            with_rm=(obj['size']['smt'] == 0))})]
     finally:
         rig.close()
     res, st = tracecheck.validate('Sizing', 'SizingTrace', dom_constants(dom), [t[2] for t in traces])
